@@ -798,6 +798,30 @@ func c09Programs(s *sim.Sim, p *sim.Params) {
 	// many blocks of one request, each recursing on its own (every one of them, alone, stays far
 	// below the evaluator's depth limit): how many of them overlap is the scheduler's business
 	fanBlocks, fanDepth := 6+s.Choose(sim.SWork, 10), []int{20, 45, 70}[s.Choose(sim.SWork, 3)]
+	if s.Choose(sim.SWork, 5) == 0 {
+		fanBlocks, fanDepth = 66+s.Choose(sim.SWork, 20), 12 // a crowd of blocks, each waiting for an inner block
+	}
+	// an array built by concatenation, captured by a block, then extended by the parent and by
+	// the block: each gets its own extension of what was captured
+	extra += `
+@ GET /arr {
+  $ log = [1]
+  log = log + [2]
+  log = log + [3]
+  $ f = async {
+    $ mine = log + [100]
+    > mine
+  }
+  log = log + [5]
+  $ g = async {
+    > log + [200]
+  }
+  $ r = await f
+  $ q = await g
+  log = log + [6]
+  > {route: "arr", log: log, r: r, q: q}
+}
+`
 	if interp {
 		extra += fmt.Sprintf(`
 ! dive(n: int): int {
@@ -808,10 +832,18 @@ func c09Programs(s *sim.Sim, p *sim.Params) {
 }
 
 @ GET /fan {
+  $ gate = async {
+    > dive(150)
+  }
   $ fs = []
   for x in [%s] {
     $ f = async {
-      > dive(%d) + x
+      $ opened = await gate
+      $ inner = async {
+        > dive(%d)
+      }
+      $ v = await inner
+      > v + x
     }
     fs = fs + [f]
   }
@@ -862,6 +894,17 @@ func c09Programs(s *sim.Sim, p *sim.Params) {
 			if tw.status != 200 || !strings.Contains(tw.body, want) || !strings.Contains(tw.body, want2) {
 				s.Fail("oracle", "block-value:awaited-twice", fmt.Sprintf("%s: a future awaited twice, the first result changed in between, answered %d %s; want first=%d second=%d", when, tw.status, strings.TrimSpace(tw.body), base+100, base))
 			}
+		}
+		ar := sv.do(simReq{path: "/arr", remote: "10.0.0.2:1"})
+		if ar.status == 200 {
+			s.Probe("captured-array-checked")
+			for _, want := range []string{`"log":[1,2,3,5,6]`, `"r":[1,2,3,100]`, `"q":[1,2,3,5,200]`} {
+				if !strings.Contains(ar.body, want) {
+					s.Fail("oracle", "block-value:captured-array", fmt.Sprintf("%s: an array captured by two blocks and extended by each of them and by the parent: the route answered %s, want %s in it (interpreter=%v)", when, strings.TrimSpace(ar.body), want, interp))
+				}
+			}
+		} else {
+			s.Probe("arr-route-not-supported-by-this-engine")
 		}
 		if interp {
 			fan := sv.do(simReq{path: "/fan", remote: "10.0.0.2:1"})
